@@ -154,8 +154,17 @@ func (g *gen) matsFor(i int) [][2]int {
 	} else if in.topo == 2 {
 		prims = in.nidx / 4
 	}
+	// the ranges cover exactly the primitives (3/5), FEWER (1/5: some primitives belong to no range) or MORE (1/5: the
+	// ranges reach past the last primitive) — Append with a material-less mesh, SetIndices and the filters produce both
+	covered := prims
+	switch g.r.Intn(5) {
+	case 0:
+		covered = g.r.Intn(prims + 1)
+	case 1:
+		covered = prims + g.r.Range(1, 3)
+	}
 	counts := make([]int, g.r.Range(1, 5))
-	for p := 0; p < prims; p++ {
+	for p := 0; p < covered; p++ {
 		counts[g.r.Intn(len(counts))]++
 	}
 	if g.r.Bool() {
@@ -503,7 +512,7 @@ func (g *gen) step1() {
 		g.push(Op{Op: "repeat", I: i, TRS: ts})
 	case w < 89:
 		if i := g.any(); i >= 0 {
-			g.push(Op{Op: "export", I: i, Fmt: hx.Pick(g.r, exportFmts)})
+			g.export(i)
 		}
 	case w < 91:
 		g.identOp()
@@ -735,6 +744,17 @@ func (g *gen) fanIn() {
 	g.focus = o
 }
 
+// export steps add no member and cost next to nothing on the Coq side: they do not use up the length budget
+func (g *gen) export(i int) {
+	if i < 0 {
+		return
+	}
+	g.push(Op{Op: "export", I: i, Fmt: hx.Pick(g.r, exportFmts)})
+	if g.max < 24 {
+		g.max++
+	}
+}
+
 // readerOp: an operation that reads (and must only read) what member i shares with others
 func (g *gen) readerOp(i int) {
 	in := g.infos[i]
@@ -759,7 +779,7 @@ func (g *gen) readerOp(i int) {
 	case 6:
 		g.push(Op{Op: "flip", I: i, Via: g.r.Chance(1, 3)})
 	case 7:
-		g.push(Op{Op: "export", I: i, Fmt: hx.Pick(g.r, exportFmts)})
+		g.export(i)
 	case 8, 9:
 		g.appendOp(i)
 	case 10:
@@ -793,12 +813,45 @@ func (g *gen) sharePattern() {
 	if b < 0 {
 		return
 	}
-	if g.infos[b].nmats == 0 || g.r.Chance(2, 3) {
+	switch {
+	case g.r.Chance(1, 4):
+		// one material for everything, then more primitives without any: the list covers FEWER primitives than exist
+		if k := g.push(Op{Op: "setmaterial", I: b, Mat: g.r.Range(1, 5)}); k >= 0 {
+			plain := g.push(Op{Op: "setmaterials", I: b, Nil: true})
+			if plain >= 0 && !g.tooBig(k, plain) {
+				if a := g.push(Op{Op: "append", I: k, J: plain}); a >= 0 {
+					k = a
+				}
+			}
+			b = k
+		}
+	case g.infos[b].nmats == 0 || g.r.Chance(2, 3):
 		if k := g.push(Op{Op: "setmaterials", I: b, Mats: g.matsFor(b), Spare: g.spare()}); k >= 0 {
 			b = k
 		}
 	}
 	ds := []int{b}
+	if g.r.Bool() {
+		// a derivation that changes the primitive count and keeps the material slice: the list then covers MORE (or
+		// fewer) primitives than the derivation has
+		in := g.infos[b]
+		k := -1
+		switch g.r.Intn(3) {
+		case 0:
+			k = g.push(Op{Op: "setindices", I: b, Idx: g.indices(3*g.r.Range(0, in.nidx/3+2), in.nverts), Spare: g.spare()})
+		case 1:
+			if kd, nm, ok := g.someAttr(b, 0); ok {
+				k = g.push(Op{Op: "filter", Fn: "ge", I: b, K: kd, Name: nm, Vec: []float64{float64(g.r.Range(-5, 12))}})
+			}
+		default:
+			if in.has(3, "Position") {
+				k = g.push(Op{Op: "filter", Fn: "nullfaces", I: b, K: 3, Name: "Position"})
+			}
+		}
+		if k >= 0 {
+			ds = append(ds, k)
+		}
+	}
 	for n := g.r.Range(2, 3); n > 0; n-- {
 		src := hx.Pick(g.r, ds)
 		in := g.infos[src]
@@ -822,6 +875,12 @@ func (g *gen) sharePattern() {
 	}
 	for n := g.r.Range(2, 4); n > 0 && !g.full(); n-- {
 		g.readerOp(hx.Pick(g.r, ds))
+	}
+	// every member of the family through some exporter
+	for _, k := range ds {
+		if g.r.Chance(2, 3) {
+			g.export(k)
+		}
 	}
 	g.focus = b
 }
